@@ -83,7 +83,9 @@ def _verify_one(key):
                     source_hash=res.source_hash, line=getattr(res, 'func_line', 0), file=getattr(res, 'func_file', ''),
                     records=recs, axioms=sorted(used), assumed=sorted(res.assumed), dropped=res.dropped,
                     seconds=time.time() - t0, outcomes=res.outcomes,
-                    assumes=[(lab, txt, reason) for (lab, _, txt, reason) in c.assume_], notes=list(c.notes),
+                    assumes=[(lab, txt, reason) for (lab, _, txt, reason) in c.assume_] +
+                            [(lab, txt, 'definitional clause (introduces the symbol as the value this function returns)') for (lab, _, txt) in c.defines_],
+                    notes=list(c.notes),
                     abstract=c.abstract, verify_body=c.verify_body)
     except Exception as e:
         return dict(key=key, fid=str(key), paths=0, undecided=[], errors=['worker crash: %s\n%s' % (e, traceback.format_exc())],
